@@ -810,7 +810,7 @@ def s16(ctx, rid):
 
 RULES = [
     Rule('C12.S1', 'every ok-return of the blob constructor is preceded by the header append and then a completed ok file sync', s1, 2),
-    Rule('C12.S2', 'every index dump / index-file construction call is dominated by an ok sync of the blob file (in the function or in every caller)', s2, 3),
+    Rule('C12.S2', 'every index dump / index-file construction call is dominated by an ok sync of the blob file (in the function or in every caller)', s2, 2),
     Rule('C12.S3', 'where a blob taken (Option::take) out of the active slot is pushed to the closed list, that push is dominated by an ok sync of the active blob file', s3, 1),
     Rule('C12.S3b', 'the sync of the active blob and its retirement happen under the same live exclusive storage guard', s3b, 1),
     Rule('C12.S4', 'every ok-return of the public fsyncdata on which an active blob exists is preceded by an ok file sync', s4, 1),
